@@ -178,6 +178,22 @@ static void mk_compact(Call *c, int kind, uint64_t root, int param) {
     U64Vec s = {0};
     SpecChildIt it;
     int depth = param < 1 ? 1 : param;
+    if (kind >= 7) {
+        // kinds 7..9: full descendant sets at res `depth` of N = root base cells (consecutive from 0 / from 117 downwards / every 5th):
+        // multi-round compactions that reach resolution 0 with N cells left in the last round
+        int N = (int)root, d0[15] = {0};
+        for (int b = 0; b < N && b < 122; b++) {
+            int bc = kind == 7 ? b : kind == 8 ? 121 - b : (b * 5) % 122;
+            uint64_t r0 = spec_mk(0, bc, d0);
+            for (spec_child_first(&it, r0, depth); !it.done; spec_child_next(&it)) uv_push(&s, it.h);
+        }
+        if (kind == 9 && s.n > 3) s.n -= 1;  // last group incomplete
+        c->set = s.v;
+        c->nset = s.n;
+        c->nout = s.n;
+        c->out = malloc((c->nout + 1) * 8);
+        return;
+    }
     if (spec_res(root) + depth > 15) depth = 15 - spec_res(root);
     for (spec_child_first(&it, root, spec_res(root) + depth); !it.done; spec_child_next(&it)) uv_push(&s, it.h);
     if (kind == 1 && s.n > 1) s.n--;
@@ -204,7 +220,26 @@ static void mk_compact(Call *c, int kind, uint64_t root, int param) {
 static int mk_poly(Call *c, int fn, int shape, int anchor, int scale, int res, uint32_t flags) {
     memset(c, 0, sizeof *c);
     c->kind = 3, c->fn = fn, c->flags = flags;
-    if (poly_build(shape, anchor, scale, res, &c->poly)) return -1;
+    if (shape >= 100) {
+        // degenerate polygons (error-path / edge inputs): 100 empty outer loop, 101 one vertex, 102 two vertexes, 103 triangle with an empty hole,
+        // 104 empty outer loop with a (non-empty) hole, 105 triangle + two holes one of which is empty
+        if (poly_build(6, anchor, scale, res, &c->poly)) return -1;
+        c->poly.res = res;
+        if (shape == 100) c->poly.outer.n = 0, c->poly.nh = 0;
+        if (shape == 101) c->poly.outer.n = 1, c->poly.nh = 0;
+        if (shape == 102) c->poly.outer.n = 2, c->poly.nh = 0;
+        if (shape == 103) c->poly.outer.n = 3, c->poly.nh = 1, c->poly.holes[0].n = 0;
+        if (shape == 104) c->poly.outer.n = 0, c->poly.nh = 1;
+        if (shape == 105) {
+            c->poly.outer.n = 3, c->poly.nh = 2;
+            c->poly.holes[1] = c->poly.holes[0];
+            c->poly.holes[0].n = 0;
+        }
+        for (int k = 0; k < c->poly.nh; k++) c->poly.hl[k].numVerts = c->poly.holes[k].n;
+        c->poly.gp.geoloop.numVerts = c->poly.outer.n;
+        c->poly.gp.numHoles = c->poly.nh;
+    } else if (poly_build(shape, anchor, scale, res, &c->poly))
+        return -1;
     // poly contains pointers into itself: fix up after the struct copy
     for (int k = 0; k < c->poly.nh; k++) c->poly.hl[k].verts = c->poly.holes[k].v;
     c->poly.gp.geoloop.verts = c->poly.outer.v;
@@ -315,7 +350,31 @@ static void ph_compact(void *u) {
                 MC_RUN(OP_COMPACT, I(kind), H(g_dom.v[i]), I(depth));
             }
 }
+static void ph_compact_multi(void *u) {
+    static const int Ns[] = {1, 2, 5, 6, 7, 8, 12, 20, 49, 121, 122};
+    uint64_t idx = 0;
+    for (int kind = 7; kind <= 9; kind++)
+        for (int ni = 0; ni < 11; ni++)
+            for (int depth = 1; depth <= (mc_thorough ? 3 : 2); depth++, idx++) {
+                if (!mc_mine(idx)) continue;
+                if (mc_expired()) return;
+                MC_RUN(OP_COMPACT, I(kind), H((uint64_t)Ns[ni]), I(depth));
+            }
+}
 static int g_polyanchors[160], g_npa;
+static void ph_poly_degenerate(void *u) {
+    static const uint32_t flagsE[] = {0, 1, 2, 3, 4, 0x10};
+    uint64_t idx = 0;
+    for (int shape = 100; shape <= 105; shape++)
+        for (int ai = 0; ai < g_npa; ai += 4)
+            for (int res = 0; res <= 15; res += 3)
+                for (int fn = 0; fn < 3; fn++)
+                    for (int fi = 0; fi < (fn == 0 ? 1 : 6); fi++, idx++) {
+                        if (!mc_mine(idx)) continue;
+                        if (mc_expired()) return;
+                        MC_RUN(OP_POLY, I(fn), I(shape), I(g_polyanchors[ai]), I(1), I(res), I(fn == 0 ? 0 : flagsE[fi]));
+                    }
+}
 static void ph_poly(void *u) {
     static const int shapes[] = {1, 4, 6, 8, 9, 0, 2, 3, 5, 7, 10}, ress[] = {1, 3, 5, 7, 0, 2, 4, 9, 6, 8, 11, 13, 15};
     static const uint32_t flagsE[] = {0, 1, 2, 3, 4, 0x10};
@@ -340,7 +399,7 @@ int main(int argc, char **argv) {
         if (k == 1 || (k == 0 && an % (mc_thorough ? 3 : 6) == 0) || (k == 5 && an % 3 == 0) || (k == 2 && an % (mc_thorough ? 15 : 40) == 0) || ((k == 3 || k == 4 || k == 6) && an % (mc_thorough ? 2 : 5) == 0)) g_polyanchors[g_npa++] = an;
     }
     snprintf(mc_bounds, sizeof mc_bounds, "fault bound: every single index, every persistent-from index, every pair (n<=14); disks: CLOSE(pentagons,2)+hexagons at %s x k 1..%d x distances NULL/non-NULL; "
-             "areNeighborCells: CLOSE(pentagons,1) at %d resolutions x ball 2; compactCells: 7 kinds x depth 1..%d on 36 roots (12 base cells x res 0,5,10); polygons: %d shapes x %d anchors x %d scales x %d resolutions x (legacy, experimental x 6 flag values, size x 6)",
+             "areNeighborCells: CLOSE(pentagons,1) at %d resolutions x ball 2; compactCells: 7 kinds x depth 1..%d on 36 roots (12 base cells x res 0,5,10) + full/partial descendant sets of N in {1,2,5,6,7,8,12,20,49,121,122} base cells (3 selections) at res 1..2(3); polygons: %d shapes x %d anchors x %d scales x %d resolutions x (legacy, experimental x 6 flag values, size x 6) + 6 degenerate polygons (empty / 1- / 2-vertex outer loop, empty holes) x anchors x 6 resolutions",
              mc_thorough ? "all 16 resolutions" : "res {0,1,2,5,9,13,3,7,11,15}", mc_thorough ? 7 : 5, mc_thorough ? 16 : 8, mc_thorough ? 5 : 4, mc_thorough ? 11 : 6, g_npa, mc_thorough ? 3 : 2, mc_thorough ? 13 : 8);
     static const int dres[] = {0, 1, 2, 5, 9, 13, 3, 7, 11, 15, 4, 6, 8, 10, 12, 14};
     for (int ri = 0; ri < (mc_thorough ? 16 : 10); ri++) {
@@ -373,6 +432,8 @@ int main(int argc, char **argv) {
             }
     }
     mc_phase("compactCells", ph_compact, NULL);
+    mc_phase("compactCells over many base cells", ph_compact_multi, NULL);
     mc_phase("polygon fills", ph_poly, NULL);
+    mc_phase("degenerate polygons", ph_poly_degenerate, NULL);
     return mc_finish();
 }
